@@ -239,6 +239,99 @@ def run(tier='quick', seed=0):
             except Exception as e:
                 violations.append({'function': 'syntax.parser.parse_thm', 'clause': 'roundtrip',
                                    'what': 'sequent %r: %s %s' % (printer.print_thm(th), type(e).__name__, str(e)[:80])})
+    # instantiations and type instantiations
+    from kernel.term import Inst
+    from kernel.type import TyInst
+    from syntax.settings import global_setting
+    bools = [t for t in pool if t.get_type() == BoolType]
+    nats = [t for t in pool if t.get_type() == NatType]
+    for i in range(0, min(len(bools), len(nats), 60 if tier == 'quick' else 400)):
+        inst = Inst(s=bools[i], t=nats[i], u=bools[-1 - i])
+        for unicode in (False, True):
+            evals += 1
+            try:
+                with global_setting(unicode=unicode, highlight=False):
+                    txt = printer.print_str_args('substitution', inst, None)
+                back = parser.parse_inst(txt)
+                if dict(back) != dict(inst):
+                    violations.append({'function': 'syntax.parser.parse_inst', 'clause': 'roundtrip',
+                                       'what': 'instantiation printed as %r parses back differently' % txt})
+            except Exception as e:
+                violations.append({'function': 'syntax.parser.parse_inst', 'clause': 'roundtrip',
+                                   'what': 'instantiation: %s %s' % (type(e).__name__, str(e)[:100])})
+    for tyinst in (TyInst(a=NatType), TyInst(a=TFun(NatType, BoolType), b=TConst('set', TVar('c'))), TyInst()):
+        evals += 1
+        try:
+            with global_setting(unicode=False, highlight=False):
+                txt = printer.print_str_args('subst_type', tyinst, None)
+            if dict(parser.parse_tyinst(txt)) != dict(tyinst):
+                violations.append({'function': 'syntax.parser.parse_tyinst', 'clause': 'roundtrip',
+                                   'what': 'type instantiation printed as %r parses back differently' % txt})
+        except Exception as e:
+            violations.append({'function': 'syntax.parser.parse_tyinst', 'clause': 'roundtrip',
+                               'what': 'type instantiation: %s %s' % (type(e).__name__, str(e)[:100])})
+    # exported proof steps: one item per argument signature; the argument is the step's own conclusion, another
+    # term, or part of a tuple; exported under every highlight / unicode setting, parsed back, compared field by field
+    from kernel.proof import ProofItem
+    from kernel import theory as ktheory
+    from typing import Tuple, List
+    from kernel.term import Term
+    from kernel.type import Type
+
+    def items_for(t, other):
+        th_own, th_hyp = Thm(t), Thm(t, P)
+        res = []
+        for th in (th_own, th_hyp, None):
+            for arg in (t, other):
+                res += [ProofItem(3, 'implies_intr', args=arg, prevs=[2], th=th),
+                        ProofItem((1, 2), 'forall_elim', args=arg, prevs=[(1, 1)], th=th),
+                        ProofItem(0, 'assume', args=arg, th=th),
+                        ProofItem(4, 'rewrite_goal', args=('conj_comm', arg), prevs=[1, 2], th=th),
+                        ProofItem(5, 'apply_theorem_for', args=('conjI', Inst(A=arg, B=other)), prevs=[3, 4], th=th),
+                        ProofItem(6, 'apply_fact_for', args=[arg, other], prevs=[0], th=th),
+                        ProofItem(7, 'apply_induct', args=('nat_induct', x, arg), prevs=[5, 6], th=th),
+                        ProofItem(8, 'z3', args=arg, prevs=[0, 1], th=th)]
+            res += [ProofItem(2, 'apply_theorem', args='conjI', prevs=[0, 1], th=th),
+                    ProofItem(2, 'implies_elim', prevs=[0, 1], th=th),
+                    ProofItem(1, 'subst_type', args=TyInst(a=NatType), prevs=[0], th=th),
+                    ProofItem(1, 'substitution', args=Inst(s=t, u=other), prevs=[0], th=th),
+                    ProofItem(0, 'variable', args=('x', NatType), th=th),
+                    ProofItem(9, 'sorry', th=th_hyp)]
+        return res
+
+    def same_args(a1, a2):
+        if isinstance(a1, (Inst, TyInst)) and isinstance(a2, (Inst, TyInst)):
+            return dict(a1) == dict(a2)
+        if isinstance(a1, (tuple, list)) and isinstance(a2, (tuple, list)):
+            return len(a1) == len(a2) and all(same_args(u, v) for u, v in zip(a1, a2))
+        return a1 == a2
+    n_items = 0
+    for i in range(min(len(bools) - 1, 12 if tier == 'quick' else 80)):
+        for item in items_for(bools[i], bools[i + 1]):
+            try:
+                ktheory.thy.get_proof_rule_sig(item.rule)
+            except Exception:
+                continue        # rule not present in this theory
+            for unicode in (False, True):
+                for hl in (False, True):
+                    evals += 1
+                    n_items += 1
+                    try:
+                        with global_setting(unicode=unicode, highlight=hl):
+                            data = printer.export_proof_item(item)[0]
+                        back = parser.parse_proof_rule(data)
+                        diff = [f_ for f_ in ('id', 'rule', 'prevs', 'th') if getattr(back, f_) != getattr(item, f_)]
+                        if not same_args(back.args, item.args):
+                            diff.append('args')
+                        if diff:
+                            violations.append({'function': 'syntax.printer.export_proof_item', 'clause': 'roundtrip',
+                                               'what': 'step %s: fields %s differ after export / parse (args exported as %r)' % (
+                                                   item.rule, diff, data['args']), 'unicode': unicode, 'highlight': hl})
+                    except Exception as e:
+                        violations.append({'function': 'syntax.parser.parse_proof_rule', 'clause': 'roundtrip',
+                                           'what': 'step %s: export / parse raised %s %s' % (
+                                               item.rule, type(e).__name__, str(e)[:100]),
+                                           'unicode': unicode, 'highlight': hl})
     seen = set()
     uniq = []
     for v in violations:
@@ -250,7 +343,8 @@ def run(tier='quick', seed=0):
             'quantifiers with bound names clashing with free ones, lambda, = at bool/nat/int/real, comparisons, '
             '+ - * / uminus power of_nat if-then-else, numerals at three types, function variables applied to negative '
             'literals, 2-3 nested binders (all / exists / set comprehension) with repeated suggested names; ASCII and Unicode, line_length '
-            'None/20(/80), printed twice (cold / after all others); non-trivial = distinct terms', 'evaluations': evals,
+            'None/20(/80), printed twice (cold / after all others); instantiations, type instantiations and exported proof '
+            'steps of 15 argument signatures (argument = own conclusion / other term) under 4 settings; non-trivial = distinct terms', 'evaluations': evals,
             'distinct_nontrivial': len(distinct), 'samples': samples, 'violations': uniq[:12],
             'n_violations': len(uniq), 'all_violations': len(violations), 'secs': round(time.time() - t0, 1)}
 
